@@ -35,6 +35,9 @@ pub struct SchedCase {
     pub stop: Stop,
     pub schedule: Vec<u8>,
     pub yield_in_model: bool,
+    /// engine 2: no scheduler, real OS threads (block size = the default unless `block` > 0)
+    #[serde(default)]
+    pub real_threads: bool,
 }
 
 pub enum Joined {
@@ -76,7 +79,11 @@ pub fn run_scheduled(c: &SchedCase, join_wait: Duration) -> SchedOut {
         let thread = std::thread::current().name().unwrap_or("").to_string();
         v2.lock().unwrap().push(Visit { path: p.into_vec(), thread });
     });
-    verif_hooks::set_spawn_ctx(Some(Arc::new(Ctx { block_size: Some(c.block), sched: Some(sched.clone()) })));
+    if c.real_threads {
+        verif_hooks::set_spawn_ctx(if c.block > 0 { Some(Arc::new(Ctx { block_size: Some(c.block), sched: None })) } else { None });
+    } else {
+        verif_hooks::set_spawn_ctx(Some(Arc::new(Ctx { block_size: Some(c.block), sched: Some(sched.clone()) })));
+    }
     fn joined<C: Checker<GM> + Send + 'static>(c: C, wait: Duration) -> (Joined, Option<(usize, bool, Result<Vec<&'static str>, String>)>) {
         let (tx, rx) = mpsc::channel();
         std::thread::Builder::new()
@@ -107,7 +114,12 @@ pub fn run_scheduled(c: &SchedCase, join_wait: Duration) -> SchedOut {
             verif_hooks::set_spawn_ctx(None);
             joined(ch, join_wait)
         }
-        _ => {
+        Strat::Sim(seed) => {
+            let ch = b.spawn_simulation(seed, stateright::UniformChooser);
+            verif_hooks::set_spawn_ctx(None);
+            joined(ch, join_wait)
+        }
+        Strat::OnDemand => {
             let ch = b.spawn_on_demand();
             verif_hooks::set_spawn_ctx(None);
             ch.run_to_completion();
@@ -148,7 +160,7 @@ pub fn sched_strategy(tier: Tier) -> BoxedStrategy<SchedCase> {
             };
             // on-demand ignores finish_when by design; use exhaustion there
             let stop = if strat == Strat::OnDemand && stop == Stop::FinishAny { Stop::Exhaust } else { stop };
-            SchedCase { g, strat, threads, block, stop, schedule, yield_in_model }
+            SchedCase { g, strat, threads, block, stop, schedule, yield_in_model, real_threads: false }
         })
         .boxed()
 }
@@ -157,7 +169,7 @@ pub fn sched_strategy(tier: Tier) -> BoxedStrategy<SchedCase> {
 pub const JOIN_WAIT_S: u64 = 6;
 
 pub fn check_scheduled(c: &SchedCase, cov: &mut Cov) -> Result<(), Fail> {
-    let out = run_scheduled(c, Duration::from_secs(JOIN_WAIT_S));
+    let out = run_scheduled(c, Duration::from_secs(if c.real_threads { 120 } else { JOIN_WAIT_S }));
     cov.eval();
     if out.stuck {
         fail!("inconclusive/scheduler-watchdog", "a controlled thread did not reach a scheduling point within the watchdog: {:?}", c.stop);
@@ -194,11 +206,11 @@ pub fn check_scheduled(c: &SchedCase, cov: &mut Cov) -> Result<(), Fail> {
         *seen.entry(v.path.last().unwrap().0 .0).or_insert(0) += 1;
         workers.insert(v.thread.clone());
     }
-    let twice: Vec<u32> = seen.iter().filter(|(_, k)| **k > 1).map(|(s, _)| *s).collect();
+    let twice: Vec<u32> = if c.strat.exhaustive() { seen.iter().filter(|(_, k)| **k > 1).map(|(s, _)| *s).collect() } else { vec![] };
     ensure!(twice.is_empty(), format!("c05/{}/work-handed-to-two-workers", c.strat.label()), "states {:?} were evaluated more than once under {}", twice, what);
     let extra: Vec<u32> = seen.keys().filter(|s| !r.set.contains(s)).copied().collect();
     ensure!(extra.is_empty(), format!("c05/{}/unreachable-state-evaluated", c.strat.label()), "{:?}", extra);
-    if c.stop == Stop::Exhaust {
+    if c.stop == Stop::Exhaust && c.strat.exhaustive() {
         let missing: Vec<u32> = r.set.iter().filter(|s| !seen.contains_key(s)).copied().collect();
         ensure!(missing.is_empty(), format!("c05/{}/work-lost", c.strat.label()), "states {:?} were never evaluated under {} (reachable: {}, evaluated: {})", missing, what, r.set.len(), seen.len());
         ensure!(out.unique == r.set.len(), format!("c05/{}/unique-count-differs-from-single-threaded", c.strat.label()), "unique_state_count={} but {} states are reachable", out.unique, r.set.len());
@@ -230,7 +242,15 @@ pub fn check_scheduled(c: &SchedCase, cov: &mut Cov) -> Result<(), Fail> {
     cov.count("handoffs", st.handoffs);
     cov.count("cv_waits", st.cv_waits);
     cov.count("decisions_used", st.decisions_used);
-    if workers.len() >= 2 && st.wait_then_notified >= 1 {
+    if c.real_threads {
+        cov.label_if(workers.len() >= 2, "real_threads_shared_work");
+        if workers.len() >= 2 {
+            cov.nontrivial(&(c.g.n, c.g.inits.clone(), c.strat, c.threads, format!("{:?}", c.stop), c.schedule.clone()));
+            if cov.wants_sample() {
+                cov.sample(json!({"big_graph_states": g.n, "strategy": c.strat.label(), "threads": c.threads, "stop": c.stop, "workers_that_evaluated_states": workers.len(), "evaluated": seen.len(), "reachable": r.set.len()}));
+            }
+        }
+    } else if workers.len() >= 2 && st.wait_then_notified >= 1 {
         cov.nontrivial(c);
         if cov.wants_sample() {
             cov.sample(json!({"graph": g, "strategy": c.strat.label(), "threads": c.threads, "block": c.block, "stop": c.stop, "schedule_len": c.schedule.len(), "handoffs": st.handoffs, "cv_waits": st.cv_waits, "evaluated": seen.len(), "reachable": r.set.len()}));
@@ -268,6 +288,121 @@ impl SubCheck for Scheduled {
     }
     fn max_shrink_iters(&self) -> u32 {
         600
+    }
+}
+
+/// Join-heavy narrow DAGs with scheduling points inside model code: two workers generating the
+/// same successor at the same time (map-insertion interleavings).
+pub struct RacingJoins;
+impl SubCheck for RacingJoins {
+    type Case = SchedCase;
+    fn name(&self) -> &'static str {
+        "racing_joins"
+    }
+    fn cases(&self, tier: Tier) -> u32 {
+        tier.pick(3000, 60000)
+    }
+    fn strategy(&self, _tier: Tier) -> BoxedStrategy<SchedCase> {
+        let mut p = GraphParams::small();
+        p.max_n = 16;
+        p.max_deg = 3;
+        p.max_props = 1;
+        p.min_props = 0;
+        p.oob_rate = 20;
+        p.exps = vec![Exp::Always, Exp::Sometimes];
+        p.force_true_always = true;
+        p.shapes = vec![(3, Shape::Dag(2)), (2, Shape::Dag(3)), (1, Shape::Uniform)];
+        p.max_inits = 2;
+        (graph_strategy(p), prop_oneof![Just(Strat::Bfs), Just(Strat::Dfs), Just(Strat::OnDemand)], 2usize..=3, 1usize..=2, proptest::collection::vec(any::<u8>(), 20..200))
+            .prop_map(|(g, strat, threads, block, schedule)| SchedCase { g, strat, threads, block, stop: Stop::Exhaust, schedule, yield_in_model: true, real_threads: false })
+            .boxed()
+    }
+    fn check(&self, c: &SchedCase, cov: &mut Cov) -> Result<(), Fail> {
+        cov.label_if(c.g.features().contains(&"join"), "join");
+        check_scheduled(c, cov)
+    }
+    fn mandatory(&self) -> Vec<&'static str> {
+        vec!["join", "two_workers_did_work", "bfs", "dfs", "on_demand"]
+    }
+    fn max_shrink_iters(&self) -> u32 {
+        600
+    }
+}
+
+/// Engine 2: real OS threads on graphs larger than the work block.
+#[derive(Clone, Debug, Serialize, Deserialize, PartialEq, Eq, Hash)]
+pub struct StressCase {
+    pub seed: u64,
+    pub n: u32,
+    pub deg: u32,
+    pub strat: Strat,
+    pub threads: usize,
+    pub stop: Stop,
+    pub block: usize,
+}
+pub struct RealThreads;
+impl SubCheck for RealThreads {
+    type Case = StressCase;
+    fn name(&self) -> &'static str {
+        "real_thread_stress"
+    }
+    fn cases(&self, tier: Tier) -> u32 {
+        tier.pick(48, 600)
+    }
+    fn strategy(&self, tier: Tier) -> BoxedStrategy<StressCase> {
+        let max_n = tier.pick(8000u32, 60000u32);
+        (
+            any::<u64>(),
+            1600u32..max_n,
+            0u32..3,
+            prop_oneof![3 => Just(Strat::Bfs), 3 => Just(Strat::Dfs), 2 => Just(Strat::OnDemand), 1 => (0u64..100).prop_map(Strat::Sim)],
+            prop_oneof![Just(2usize), Just(4usize), Just(8usize), Just(16usize)],
+            prop_oneof![3 => Just(0u8), 1 => Just(1u8), 1 => Just(2u8), 1 => Just(3u8)],
+            prop_oneof![2 => Just(0usize), 1 => Just(50usize), 1 => Just(300usize)],
+            any::<u16>(),
+        )
+            .prop_map(|(seed, n, deg, strat, threads, stop, block, raw)| {
+                let stop = match (stop, strat) {
+                    (_, Strat::Sim(_)) => Stop::Target(500 + idx(raw, 3000)),
+                    (1, Strat::Bfs) | (1, Strat::Dfs) => Stop::FinishAny,
+                    (2, _) => Stop::Target(500 + idx(raw, n as usize)),
+                    (3, _) => Stop::PanicAt(idx(raw, n as usize) as u32),
+                    _ => Stop::Exhaust,
+                };
+                StressCase { seed, n, deg, strat, threads, stop, block }
+            })
+            .boxed()
+    }
+    fn check(&self, c: &StressCase, cov: &mut Cov) -> Result<(), Fail> {
+        // one sometimes-property with a witness far from the root (so FinishAny stops mid-way), one always-true
+        let all: BTreeSet<u32> = (0..c.n).collect();
+        let far: BTreeSet<u32> = (c.n / 2..c.n / 2 + 1).collect();
+        let g = big_graph(c.seed, c.n, c.deg, vec![PropDesc { exp: Exp::Always, on: all }, PropDesc { exp: Exp::Sometimes, on: far }]);
+        let sc = SchedCase { g, strat: c.strat, threads: c.threads, block: c.block, stop: c.stop.clone(), schedule: vec![], yield_in_model: false, real_threads: true };
+        let mut inner = Cov::new(1);
+        check_scheduled(&sc, &mut inner)?;
+        cov.eval();
+        for (l, k) in &inner.labels {
+            for _ in 0..*k {
+                cov.label(l);
+            }
+        }
+        for h in inner.nontrivial.iter() {
+            cov.nontrivial(&(*h, c.seed));
+        }
+        for s in inner.samples {
+            cov.sample(s);
+        }
+        Ok(())
+    }
+    fn mandatory(&self) -> Vec<&'static str> {
+        vec!["real_threads_shared_work", "bfs", "dfs", "on_demand", "simulation", "stop_exhaustion", "stop_target", "stop_panic"]
+    }
+    fn workers(&self) -> usize {
+        3
+    }
+    fn max_shrink_iters(&self) -> u32 {
+        40
     }
 }
 
@@ -437,6 +572,6 @@ pub fn spec() -> PropSpec {
             "interleavings inside DashMap operations and of relaxed atomics are atomic at the scheduler's granularity and only sampled by the real-thread runs",
             "no spurious condvar wake-ups are injected (parking_lot documents none)",
         ],
-        subs: vec![Box::new(Scheduled), Box::new(BrokerPrograms)],
+        subs: vec![Box::new(Scheduled), Box::new(RacingJoins), Box::new(BrokerPrograms), Box::new(RealThreads)],
     }
 }
